@@ -203,7 +203,7 @@ def max_abs_floats(text):
 
 def compare_lines(impl, model, mode, rtol=1e-9, atol_rel=1e-12, scale0=0.0):
     """True iff the two answer lines agree under the comparison rule `mode`
-    ('exact' | 'close')."""
+    ('exact' | 'close' | 'vexact' = values bit for bit, derivative entries with the tolerance of 'close')."""
     if impl == model:
         return True
     if mode == "exact":
@@ -224,6 +224,7 @@ def compare_lines(impl, model, mode, rtol=1e-9, atol_rel=1e-12, scale0=0.0):
     if len(ti) != len(tm):
         return False
     fl = []
+    prev = ""
     for a, b in zip(ti, tm):
         fa, fb = is_float_tok(a), is_float_tok(b)
         if fa != fb:
@@ -231,8 +232,15 @@ def compare_lines(impl, model, mode, rtol=1e-9, atol_rel=1e-12, scale0=0.0):
         if not fa:
             if a != b:
                 return False
+        elif mode == "vexact" and prev in ("F", "D", "D2", "B", "X", ""):
+            # a VALUE (the float right after a number marker, or a bare float): bit for bit (NaN = NaN, +0 = -0)
+            va, vb = f_of_hex(a), f_of_hex(b)
+            if a != b and not ((math.isnan(va) and math.isnan(vb)) or (va == 0.0 and vb == 0.0)):
+                return False
+            fl.append((va, va))   # contributes to the scale only
         else:
             fl.append((f_of_hex(a), f_of_hex(b)))
+        prev = a
     scale = scale0
     for a, b in fl:
         for v in (a, b):
@@ -374,6 +382,13 @@ def last_differs(lines, cfg, scratch):
     if cfg.segment_scale:
         sc = max([max_abs_floats(x) for x in lines] + [max_abs_floats(x) for x in il[:n]] +
                  [max_abs_floats(x) for x in ml[:n]] + [0.0])
+    if cfg.line_scale:
+        ls = type(cfg.line_scale)()
+        last = 0.0
+        for l in lines:
+            if l.split():
+                last = ls.feed(l.split())
+        sc = max(sc, last)
     a, b = canon_pair(cfg, op, a, b)
     if cfg.compare_op:
         r = cfg.compare_op(op, a, b)
@@ -592,6 +607,8 @@ def check(prop, tier, seed):
                         if toks[0] == "reset":
                             seg_scale = 0.0
                         seg_scale = max(seg_scale, max_abs_floats(op), max_abs_floats(il), max_abs_floats(ml))
+                    op_scale = cfg.line_scale.feed(toks) if cfg.line_scale else 0.0
+                    il_raw = il
                     il, ml = canon_pair(cfg, toks, il, ml)
                     stats["evaluations"] += 1
                     same = None
@@ -599,7 +616,7 @@ def check(prop, tier, seed):
                         same = cfg.compare_op(toks, il, ml)
                     if same is None:
                         same = (il == ml) or compare_lines(il, ml, cfg.mode_for(toks), cfg.rtol, cfg.atol_rel,
-                                                           seg_scale if cfg.segment_scale else 0.0)
+                                                           max(seg_scale if cfg.segment_scale else 0.0, op_scale))
                     if not same or ((il == "bad-op" or ml == "bad-op") and not cfg.allow_badop):
                         if len(mismatches) < 200:
                             mismatches.append((n, op.rstrip("\n"), il, ml))
@@ -611,9 +628,10 @@ def check(prop, tier, seed):
                             if len(stats["samples"]) < 6 and (len(stats["samples"]) == 0 or n % 977 == 0):
                                 stats["samples"].append({"op": op.strip()[:400], "impl": il[:400], "model": ml[:400]})
                     if cfg.oracle:
-                        o = cfg.oracle(toks, il)
+                        # the model-free oracle judges the implementation's answer AS PRINTED (not the by-name view)
+                        o = cfg.oracle(toks, il_raw)
                         if o:
-                            oracle_fail.append((n, op.rstrip("\n"), il, o))
+                            oracle_fail.append((n, op.rstrip("\n"), il_raw, o))
             if cfg.oracle_finish:
                 oracle_fail.extend(cfg.oracle_finish())
         cov["evaluations"] = stats["evaluations"]
@@ -686,8 +704,17 @@ def check(prop, tier, seed):
                 if prefix[i].strip() == "reset":
                     prefix = prefix[i + 1:]
                     break
-            used = set(op.split())
-            prefix = [l for l in prefix if l.split()[0] == "defname" or (len(l.split()) > 1 and (l.split()[1] in used or "H" + l.split()[1] in used))]
+            if getattr(cfg.oracle, "stateful", False):
+                # the oracle judges the op against earlier answers of the same case: keep the whole case
+                seg = all_lines[:n]
+                for i in range(len(seg) - 1, -1, -1):
+                    if seg[i].strip() == "reset":
+                        seg = seg[i + 1:]
+                        break
+                prefix = [l for l in seg if l.strip()]
+            else:
+                used = set(op.split())
+                prefix = [l for l in prefix if l.split()[0] == "defname" or (len(l.split()) > 1 and (l.split()[1] in used or "H" + l.split()[1] in used))]
             path = write_replay(prop, seed, prefix + [op], [""] * len(prefix) + [il],
                                 ["(definition)"] * len(prefix) + ["(model-free oracle)"],
                                 ["implementation output rejected by the model-free oracle: %s" % why])
@@ -784,6 +811,7 @@ def replay(path):
             a = il[i] if i < len(il) else "<no answer>"
             b = ml[i] if i < len(ml) else "<no answer>"
             same = None
+            a_raw = a
             if cfg and op.split():
                 a, b = canon_pair(cfg, op.split(), a, b)
             if cfg and cfg.compare_op:
@@ -793,9 +821,16 @@ def replay(path):
                 if cfg and cfg.segment_scale:
                     sc = max([max_abs_floats(x) for x in lines[:i + 1]] + [max_abs_floats(x) for x in il[:i + 1]] +
                              [max_abs_floats(x) for x in ml[:i + 1]] + [0.0])
+                if cfg and cfg.line_scale:
+                    ls = type(cfg.line_scale)()
+                    last = 0.0
+                    for l in lines[:i + 1]:
+                        if l.split():
+                            last = ls.feed(l.split())
+                    sc = max(sc, last)
                 same = compare_lines(a, b, cfg.mode_for(op.split()) if cfg else "exact",
                                      cfg.rtol if cfg else 1e-9, cfg.atol_rel if cfg else 1e-12, sc)
-            why = cfg.oracle(op.split(), a) if (cfg and cfg.oracle and op.split()) else None
+            why = cfg.oracle(op.split(), a_raw) if (cfg and cfg.oracle and op.split()) else None
             if not same or why or i == len(lines) - 1:
                 print("op:    %s\nimpl:  %s\nmodel: %s\n%s" % (op[:300], a[:300], b[:300], "AGREE" if same else "DIFFER"))
                 if why:
